@@ -59,6 +59,14 @@ type c02In struct {
 	Orig *c02Msg
 	Key  []byte // kinds 3,4
 	Mode int    // kinds 3,4: fault mode of the key signer
+	// kinds 1,2 ("session" classes): messages verified earlier, in this order, by the SAME
+	// signer instance that then verifies Cur (a verdict must not depend on them)
+	Before []c02Step
+}
+
+type c02Step struct {
+	Kind int // 1 VerifyBid(Msg.Bid) | 2 VerifyPreConfirmation(Msg)
+	Msg  c02Msg
 }
 
 type c02Entry struct {
@@ -174,12 +182,21 @@ func c02Verify(f func() (*common.Address, error), bid *vfBid) (o vfOutcome) {
 func c02Run(in c02In) c02Obs {
 	o := c02Obs{Inner: c02NA, Obs: c02NA, Table: []c02Entry{}, Signs: []c02Sign{}}
 	verifier := NewSigner(&vfKeySigner{key: vfKey(bytes.Repeat([]byte{1}, 32))})
+	origVerifier := NewSigner(&vfKeySigner{key: vfKey(bytes.Repeat([]byte{1}, 32))})
+	for _, st := range in.Before {
+		st := st
+		if st.Kind == 1 && st.Msg.Bid != nil {
+			c02Verify(func() (*common.Address, error) { return verifier.VerifyBid(st.Msg.Bid.pb()) }, st.Msg.Bid)
+		} else if st.Kind == 2 {
+			c02Verify(func() (*common.Address, error) { return verifier.VerifyPreConfirmation(st.Msg.pb()) }, st.Msg.Bid)
+		}
+	}
 	switch in.Kind {
 	case 1:
 		o.Obs = c02Verify(func() (*common.Address, error) { return verifier.VerifyBid(in.Cur.Bid.pb()) }, in.Cur.Bid)
 		c02RecordBid(&o.Table, in.Cur.Bid)
 		if in.Orig != nil && in.Orig.Bid != nil {
-			if r := c02Verify(func() (*common.Address, error) { return verifier.VerifyBid(in.Orig.Bid.pb()) }, in.Orig.Bid); r.Kind == "ok" {
+			if r := c02Verify(func() (*common.Address, error) { return origVerifier.VerifyBid(in.Orig.Bid.pb()) }, in.Orig.Bid); r.Kind == "ok" {
 				o.OrigAddr = r.Bytes
 			}
 		}
@@ -190,7 +207,7 @@ func c02Run(in c02In) c02Obs {
 		}
 		c02RecordMsg(&o.Table, in.Cur)
 		if in.Orig != nil {
-			if r := c02Verify(func() (*common.Address, error) { return verifier.VerifyPreConfirmation(in.Orig.pb()) }, in.Orig.Bid); r.Kind == "ok" {
+			if r := c02Verify(func() (*common.Address, error) { return origVerifier.VerifyPreConfirmation(in.Orig.pb()) }, in.Orig.Bid); r.Kind == "ok" {
 				o.OrigAddr = r.Bytes
 			}
 		}
@@ -435,7 +452,7 @@ func TestVerifC02(t *testing.T) {
 		}
 		return vfBidOf(b)
 	}
-	bases := 1 + e.N/60
+	bases := 1 + e.N/100
 	for i := 0; i < bases; i++ {
 		bidderKey, providerKey := vfRandKey(r), vfRandKey(r)
 		b0, other := mkBid(bidderKey), mkBid(bidderKey)
@@ -511,6 +528,61 @@ func TestVerifC02(t *testing.T) {
 			sp := sp
 			outer(sp.Class, func(m *c02Msg) { m.Sig = sp.Sig })
 		}
+	}
+	// sessions: ONE signer instance verifies the genuine message first, then every perturbation
+	// (fields with digest and signature kept, digest alone, signature alone, several at once),
+	// then the genuine message again; then the same around a genuine commitment (embedded bid
+	// perturbed with the commitment's own digest/signature kept, commitment signature alone). Each step is a
+	// case whose input carries the steps before it, so that it can be re-run exactly.
+	sessions := 1
+	if e.Tier == "thorough" {
+		sessions = 4
+	}
+	for i := 0; i < sessions; i++ {
+		bidderKey, providerKey := vfRandKey(r), vfRandKey(r)
+		b0, other := mkBid(bidderKey), mkBid(bidderKey)
+		m0 := c02Msg{Bid: &b0}
+		c0p, err := NewSigner(&vfKeySigner{key: vfKey(providerKey)}).ConstructPreConfirmation(b0.pb())
+		if err != nil {
+			t.Fatalf("verif: cannot build a valid commitment: %v", err)
+		}
+		c0 := c02MsgOf(c0p)
+		var before []c02Step
+		step := func(class string, kind int, m c02Msg, orig *c02Msg) {
+			run("session:"+class, c02In{Kind: kind, Cur: m, Orig: orig, Before: append([]c02Step{}, before...)})
+			before = append(before, c02Step{Kind: kind, Msg: m})
+		}
+		perts := c02BidPerts(r, b0, other)
+		step("bid-genuine-first", 1, m0, &m0)
+		for _, p := range perts {
+			p := p
+			step("bid-"+p.Class, 1, c02Msg{Bid: &p.Bid}, &m0)
+		}
+		step("bid-genuine-again", 1, m0, &m0)
+		step("commitment-genuine-first", 2, c0, &c0)
+		for j, p := range perts {
+			p := p
+			if e.Tier == "thorough" || j%2 == 0 || strings.HasPrefix(p.Class, "amount-plus-2") {
+				step("commitment-bid-"+p.Class, 2, c02Msg{Bid: &p.Bid, Dig: c0.Dig, Sig: c0.Sig}, &c0)
+			}
+		}
+		for _, sp := range c02SigPerts(c0.Sig) {
+			step("commitment-"+sp.Class, 2, c02Msg{Bid: c0.Bid, Dig: c0.Dig, Sig: sp.Sig}, &c0)
+		}
+		bad := c02Clone(c0.Dig)
+		bad[5] ^= 4
+		step("commitment-digest-flip", 2, c02Msg{Bid: c0.Bid, Dig: bad, Sig: c0.Sig}, &c0)
+		step("commitment-genuine-again", 2, c0, &c0)
+		// forged bids right after the genuine COMMITMENT was verified
+		fs := b0
+		fs.Sig = c02Clone(b0.Sig)
+		fs.Sig[7] ^= 1
+		step("bid-signature-forged", 1, c02Msg{Bid: &fs}, &m0)
+		fb := b0
+		fb.Tx = append(append([]byte{}, b0.Tx...), '!')
+		fb.Amt = []byte("1" + string(b0.Amt))
+		fb.Bn++
+		step("bid-all-fields-forged", 1, c02Msg{Bid: &fb}, &m0)
 	}
 	// unsigned / malformed messages without a valid origin
 	for i := 0; i < 4+e.N/6; i++ {
